@@ -754,6 +754,14 @@ func (g *FnGen) loopFrameCond(li *loopInfo, fam, ref string) string {
 					}
 				}
 			}
+			// p.f of slice type also names the elements of that slice
+			if v, ok := env.tryTr(c.E); ok {
+				if u, isSl := typeUnder(v.GT).(*types.Slice); isSl {
+					if f, _ := g.elemFam(u.Elem()); f == fam {
+						alts = append(alts, fmt.Sprintf("(= %s (s-ref %s))", ref, v.T))
+					}
+				}
+			}
 		default:
 			v := env.tr(c.E)
 			switch u := typeUnder(v.GT).(type) {
